@@ -71,7 +71,7 @@ fn alphabet(kind: u16, thorough: bool) -> Vec<String> {
         v.extend(["true", "false"]);
     }
     if kind & ARRAY != 0 {
-        v.extend(["[1, \"a\"]", "[]", "[[1], {\"k\": null}]", "[\"a\", \"b\", \"a\"]"]);
+        v.extend(["[1, \"a\"]", "[]", "[1]", "[\"a\"]", "[null]", "[[1], {\"k\": null}]", "[\"a\", \"b\", \"a\"]"]);
         if thorough {
             v.extend(["[1, 2, 3]", "[1.5, null, true]"]);
         }
